@@ -117,3 +117,90 @@ def table_fields(F):
         if m and m.group(1) in tts:
             out.append((fd["name"], m.group(1), fd["ty"]))
     return out
+
+
+def deny_list(F):
+    """strings of the lazy_static deny list handed to the RPC auth middleware, read from the
+    initializer's MIR constants; returns (static name, [strings], initializer fn)"""
+    cands = []
+    for f in F.fns.values():
+        if f.kind == "fn" and f.id.endswith("::__static_ref_initialize") and \
+                f.j.get("output", "").startswith("std::vec::Vec<std::string::String>"):
+            strs = []
+            for c in f.calls():
+                for a in c.args:
+                    v = const_value(a)
+                    if isinstance(v, str):
+                        strs.append(v)
+            # also strings in array aggregates (vec![] lowers to box + array write)
+            for b in f.blocks:
+                for s in b["stmts"]:
+                    if s["k"] == "assign":
+                        for op in s["rv"].get("ops", []):
+                            v = const_value(op)
+                            if isinstance(v, str) and v not in strs:
+                                strs.append(v)
+            deref = F.fns.get(f.id[: -len("::__static_ref_initialize")])
+            name = deref.j.get("self_ty") if deref else None
+            cands.append((name, strs, f))
+    return cands
+
+
+def state_types(F):
+    """local ADT names reachable from the engine struct's fields and from lock-wrapped statics"""
+    import re as _re
+    names = set(F.adt_by_name)
+    roots = set()
+    for a in F.adts.values():
+        for v in a["variants"]:
+            for fd in v["fields"]:
+                if "shared_data::SharedData<" in fd["ty"]:
+                    roots.add(a["name"])
+    for c in F.j["consts"]:
+        if "SharedData<" in c.get("ty", ""):
+            for n in names:
+                if n in c["ty"]:
+                    roots.add(n)
+    out = set()
+    st = list(roots)
+    while st:
+        n = st.pop()
+        if n in out:
+            continue
+        out.add(n)
+        a = F.adt_by_name.get(n)
+        if not a:
+            continue
+        for v in a["variants"]:
+            for fd in v["fields"]:
+                for m in _re.findall(r"[A-Za-z_][A-Za-z0-9_]*(?:::[A-Za-z_][A-Za-z0-9_]*)+", fd["ty"]):
+                    if m in names and m not in out:
+                        st.append(m)
+    return out
+
+
+def state_containers(F):
+    """shared mutable state containers: types reachable from the engine / lock-wrapped statics that are
+    not Clone value types, plus every lock payload type (T of SharedData<T>)"""
+    import re as _re
+    reach = state_types(F)
+    clone = set()
+    for im in F.impls:
+        if im.get("trait") == "std::clone::Clone" and im.get("self_ty"):
+            clone.add(im["self_ty"].split("<")[0])
+    out = {n for n in reach if n not in clone}
+    # lock payloads
+    pay = set()
+    def payloads(ty):
+        for m in _re.finditer(r"shared_data::SharedData<([A-Za-z_0-9:]+)", ty):
+            pay.add(m.group(1))
+    for a in F.adts.values():
+        for v in a["variants"]:
+            for fd in v["fields"]:
+                payloads(fd["ty"])
+    for c in F.j["consts"]:
+        payloads(c.get("ty", ""))
+    for n in pay:
+        if n in F.adt_by_name:
+            out.add(n)
+    return out, pay
